@@ -2,7 +2,7 @@
    sumbool/sumor map to OCaml's; nat/N/positive stay Coq's inductives.  No Extract
    Constant / Extract Inductive directives of our own. *)
 From Coq Require Import ExtrOcamlBasic.
-From EB Require Import Base ListVec Diff Head Skip Tail Filter Sort PollLoop OVec Obs ObsSpec Chain ObsConc AsyncLock AsyncGuard.
+From EB Require Import Base ListVec Diff Head Skip Tail Filter Sort PollLoop OVec OVecRun OVecDrain Obs ObsSpec Chain ObsConc AsyncLock AsyncGuard.
 Extraction Language OCaml.
 Extraction "model.ml"
   Diff.dmap Diff.apply Diff.ok_in Diff.apply_all Diff.apply_all_ok Diff.spec_nth Diff.oob
@@ -19,4 +19,5 @@ Extraction "model.ml"
   ObsConc.cstep ObsConc.release ObsConc.is_done
   AsyncLock.astep AsyncLock.async_subscriber_double_count AsyncLock.sem_new AsyncLock.sem_acquire AsyncLock.sem_release
   AsyncGuard.a_init AsyncGuard.a_start AsyncGuard.a_poll AsyncGuard.a_drop_guard AsyncGuard.a_guard_set
-  AsyncGuard.call_possible AsyncGuard.a_pad.
+  AsyncGuard.call_possible AsyncGuard.a_pad
+  OVecRun.ginit OVecRun.gstep OVecDrain.c_gpoll OVecDrain.env_ops.
